@@ -49,7 +49,11 @@ from . import state as state_mod
 
 
 _client_id_seq = 0
-_tx_state_id_seq = 0
+# Transaction state ids are handed to the clients, which send them back to
+# refer to the state some worker keeps, and the clients outlive this process:
+# start at a random point, so that an id issued before a restart does not
+# name the state of another transaction afterwards.
+_tx_state_id_seq = secrets.randbits(62)
 logger = logging.getLogger("edb.server")
 
 
